@@ -219,26 +219,22 @@ let ground_truth (case : string) (out : string) (kind : string) (ts : int) (hp :
       count (Printf.sprintf "truth:checked:%s:hp%s" kind hp);
       let expect = List.sort compare (List.filter (fun a -> a <> ts) (List.sort_uniq compare !popl)) in
       if expect <> [] then count ("truth:checked-nonempty:" ^ kind);
-      let final = (match List.rev abs with p :: _ -> bits_of_z p.ap_bits | [] -> []) in
-      begin
-        (* some station may answer with something that is not a valid reply: whether IT is listed is left open, but
-           the sweep must go on behind it.  Per address of the final population: its last probe inside the
-           stable window decides - a valid reply: listed; never probed during two sweeps: not converging;
-           addresses outside the population: not listed. *)
-        let window = 2 * !last_change in
-        let last_cls = Hashtbl.create 16 in
-        List.iteri (fun i p -> if i >= window then
-          match p.ap_da with Some a -> Hashtbl.replace last_cls (int_of_z a) p.ap_cls | None -> ()) abs;
-        let bad = ref [] in
-        List.iter (fun a ->
-          match Hashtbl.find_opt last_cls a with
-          | None -> bad := Printf.sprintf "#%d never probed" a :: !bad
-          | Some (CValid _) -> if not (List.mem a final) then bad := Printf.sprintf "#%d answers validly, not listed" a :: !bad
-          | Some _ -> ()) expect;
-        List.iter (fun a -> if not (List.mem a expect) then bad := Printf.sprintf "#%d listed, not on the bus" a :: !bad) final;
-        if !bad <> [] then
-          report_fail "C18" "converges_to_population" case
-            (Printf.sprintf "%s; %d calls, population fixed since call %d" (String.concat "; " (List.rev !bad)) npolls window)
+      (* THE DECISION is the Coq function Model/ScanTruth.v: truth_ok (extracted; sound for both models:
+         C18_ground_truth_sound / _scanner).  Per address of the final population (minus the own address): its
+         last probe inside the stable window decides - a valid reply: listed; never probed during two sweeps:
+         not converging; another reply or none: no demand - and nothing outside the population is listed.
+         Here: only the case line is parsed (population, call of the last change) and the verdict is printed. *)
+      let window = 2 * !last_change in
+      let final = last_bits Z0 abs in
+      if not (truth_ok (zi ts) (List.map zi !popl) (nat_of_int window) final abs) then begin
+        (* the offending addresses, for the message only *)
+        let bad = truth_bad (zi ts) (List.map zi !popl) (nat_of_int window) final abs in
+        let msg (a, r) = match r with
+          | TNeverProbed -> Printf.sprintf "#%d never probed" (iz a)
+          | TValidNotListed -> Printf.sprintf "#%d answers validly, not listed" (iz a)
+          | TListedNotOnBus -> Printf.sprintf "#%d listed, not on the bus" (iz a) in
+        report_fail "C18" "converges_to_population" case
+          (Printf.sprintf "%s; %d calls, population fixed since call %d" (String.concat "; " (List.map msg bad)) npolls window)
       end
     end else count ("truth:too-short:" ^ kind)
   end
